@@ -174,6 +174,19 @@ func qciRecord(out io.Writer, args []string) error {
 					// if the harness's own rounding is within 1e-7 of a boundary, adopt the code's choice when admissible
 					if r.LoOrder > 0 && r.LoOrder <= d.n && r.LoOrder != e.L && math.Abs((l1-0.5)-math.Round(l1-0.5)) < 1e-7 {
 						e.L = r.LoOrder
+					} else if r.LoOrder == 0 && e.L == 1 && math.Abs((l1-0.5)-math.Round(l1-0.5)) < 1e-7 {
+						e.L = 0 // the same at the lower clamp: order 0 (nothing below) instead of 1
+					}
+					// the same for the upper end (levels fed back from returned confidences put r1 on a half-integer to within
+					// rounding): the spec re-derives H from r1 with the 1e-7 allowance, so adopting is sound
+					if r.HiOrder > 0 && r.HiOrder <= d.n && math.Abs((r1-0.5)-math.Round(r1-0.5)) < 1e-7 {
+						cand := r.HiOrder
+						if r.Ambiguous {
+							cand++
+						}
+						if cand == e.H+1 || cand == e.H-1 {
+							e.H = cand
+						}
 					}
 					phi := func(x float64) float64 { return 0.5 * math.Erfc(-(x-mu)/(sigma*math.Sqrt2)) }
 					e.MassFull = p18(phi(float64(e.H)-0.5) - phi(float64(e.L)-0.5))
@@ -186,8 +199,8 @@ func qciRecord(out io.Writer, args []string) error {
 		extra := map[float64]bool{}
 		for _, c := range cs {
 			r := call(c)
-			if !*bigN && r.Confidence > 0 && r.Confidence < 1 {
-				extra[r.Confidence] = true
+			if r.Confidence > 0 && r.Confidence < 1 && (!*bigN || len(extra) < 10) {
+				extra[r.Confidence] = true // (n > 30: the first ten; every returned Confidence is fed back as a level, +- one float)
 			}
 		}
 		var ex []float64
